@@ -90,7 +90,7 @@ def ttml_time(max_h=999):
               "frac": None, "ff": None}
         mode = draw(st.integers(0, 5))
         if mode in (1, 2, 3):
-            nd = draw(st.one_of(st.integers(1, 9), st.sampled_from([1, 2, 3, 3, 3, 4, 6, 7])))
+            nd = draw(st.one_of(st.integers(1, 9), st.sampled_from([1, 2, 3, 3, 3, 4, 6, 7]), st.integers(10, 45)))
             digs = draw(st.one_of(
                 st.text("0123456789", min_size=nd, max_size=nd),
                 st.sampled_from(["0" * nd, "9" * nd, "1" + "0" * (nd - 1), "0" * (nd - 1) + "1",
@@ -104,6 +104,8 @@ def ttml_time(max_h=999):
     def off(draw):
         metric = draw(st.sampled_from(["h", "m", "s", "ms", "f", "s", "ms"]))
         maxd = {"h": 3, "m": 3, "s": 6, "ms": 3, "f": 2}[metric]
+        if metric == "s" and draw(st.integers(0, 5)) == 0:
+            maxd = 45       # arbitrarily long second fractions
         lim = {"h": max_h, "m": max_h * 60, "s": max_h * 3600, "ms": max_h * 3600000,
                "f": max_h * 3600 * 30}[metric]
         ip = draw(st.one_of(st.integers(0, lim), st.sampled_from([0, 1, 2, 9, 10, 59, 60, 100, 1000]).filter(lambda x: x <= lim)))
